@@ -241,6 +241,23 @@ def step (st : St) (toks : List String) : St × String :=
       | i :: _ =>
         let (own, grp) := (ks[i]?).getD ([], [])
         (st, s!"false item={i} snapshots-keys={(items[i]?).getD "?"} own-includeSnapshotsFrom={showStrs own} group-kubernetes-bindings={showStrs grp}")
+  | ["oracle", "fr", shown] =>
+    -- the clause "filterResult equal to the jq result for that very object": every element the file shows
+    -- with its full object, `[binding, object]` or `[binding, object, filterResult]`, judged by the jqFilter
+    -- of the kubernetes binding of that name as configured - on the object SHOWN, not on the model's cluster
+    match json? shown with
+    | some (.arr ts) =>
+      let verdicts := ts.map (fun t =>
+        match t with
+        | .arr [.str b, obj] => (st.hook.kbs.find? (·.name == b)).map (fun kb => (b, obj, (none : Option J), kb.cfg.filter))
+        | .arr [.str b, obj, fr] => (st.hook.kbs.find? (·.name == b)).map (fun kb => (b, obj, some fr, kb.cfg.filter))
+        | _ => none)
+      if verdicts.any (·.isNone) then (st, "bad-op") else
+      match (verdicts.filterMap id).find? (fun (_, obj, fr, f) => !(Spec.filterResultClause f obj fr)) with
+      | none => (st, "true")
+      | some (b, obj, fr, f) =>
+        (st, s!"false binding={b} filterResult={showOptJ fr} jq-result-for-the-object-shown={showOptJ (f.map (fun p => (p.eval obj).getD .null))} object={obj.print}")
+    | _ => (st, "bad-op")
   | _ => (st, "bad-op")
 
 def suite : Suite St := { init := {}, step := step }
